@@ -124,7 +124,8 @@ def func_eval_post(old, new, nI, n_new, g_old, g_new, ret_none, with_cache):
     than m indices in total, info['m'] = number of indices actually evaluated, every other request counted in
     info['m_cache'], 'm' only when the next batch would exceed the budget, 'func' when the objective returned None,
     counters change only after a successful call."""
-    fits = z3.Or(old['m_max'].isnone, old['m'] + n_new <= old['m_max'].val)
+    mm = S.as_opt_num(old['m_max'])
+    fits = z3.Or(mm.isnone, old['m'] + n_new <= mm.val)
     wanted = n_new > 0 if with_cache else z3.BoolVal(True)          # is there anything to ask?
     called = g_new['ncalls'] == g_old['ncalls'] + 1
     none = g_new.get('answers_none', z3.BoolVal(False))
@@ -149,12 +150,13 @@ def func_eval_post(old, new, nI, n_new, g_old, g_new, ret_none, with_cache):
 def func_eval_consequences(old, new, nI, g_old, g_new):
     """What C06 states, derived from the postcondition under the caller's invariant asked = evaluated = info['m'] and
     asked <= m_max: the budget is never exceeded and info['m'] keeps counting exactly the evaluated indices."""
+    mm = S.as_opt_num(old['m_max'])
     return {
-        'never-more-than-m-indices-in-total': z3.Implies(z3.Not(old['m_max'].isnone), g_new['asked'] <= old['m_max'].val),
+        'never-more-than-m-indices-in-total': z3.Implies(z3.Not(mm.isnone), g_new['asked'] <= mm.val),
         'info-m-equals-number-of-evaluated-indices': new['m'] == g_new['evaluated'],
         'stop-m-only-when-nothing-was-asked':
             z3.Implies(z3.And(S.stop_is(new['stop'], 'm'), z3.Not(S.stop_is(old['stop'], 'm'))),
-                       z3.And(z3.Not(old['m_max'].isnone), g_new['asked'] == g_old['asked'])),
+                       z3.And(z3.Not(mm.isnone), g_new['asked'] == g_old['asked'])),
         'requests-are-evaluated-or-cached-on-success':
             z3.Implies(z3.And(S.as_opt(old['stop']).isnone, S.as_opt(new['stop']).isnone),
                        new['m'] + new['m_cache'] == old['m'] + old['m_cache'] + z3.If(new['m_cache'] == old['m_cache'],
@@ -163,8 +165,9 @@ def func_eval_consequences(old, new, nI, g_old, g_new):
 
 
 def caller_invariant(f, g):
+    mm = S.as_opt_num(f['m_max'])
     return [f['m'] >= 0, f['m_cache'] >= 0, g['asked'] == f['m'], g['evaluated'] == f['m'],
-            z3.Implies(z3.Not(f['m_max'].isnone), f['m'] <= f['m_max'].val)]
+            z3.Implies(z3.Not(mm.isnone), f['m'] <= mm.val)]
 
 
 def _func_eval_unit(U, with_cache):
@@ -383,3 +386,179 @@ def u_cross_validate(U):
         else:
             U.post('head-ends-at-the-clock', p, False)
     U.canary('canary-never-rejects', [], z3.Not(bad))
+
+
+# ----------------------------------------------------------------------------------------------
+# cross() as a whole, control tier: counters, budget, stop contract, reported values (C06 / C05).
+# Array contents are not interpreted here (lenient tier): _iter / tensordot results are opaque cores.
+
+erank_f = z3.Function('erank_f', T.TT, z3.IntSort(), z3.RealSort())
+acc_f = z3.Function('acc_f', T.TT, z3.IntSort(), T.TT, z3.RealSort())
+aod_f = z3.Function('aod_f', T.TT, z3.IntSort(), z3.RealSort())
+
+
+def _tt_of(st, v):
+    v = st.deref(v)
+    if not (isinstance(v, VSeq) and v.tag == 'core'):
+        raise M.Unsupported('expected a TT list')
+    return v
+
+
+def _cross_unit(U, with_cache, with_cb):
+    fn = U.func('cross', 'cross')
+    st = U.state()
+    Y0, A0, d = S.tt_param(st, 'Y0', z3.Int('d'))
+    m, e, nswp, e_vld = S.opt_int('m'), S.opt_real('e'), S.opt_int('nswp'), S.opt_real('e_vld')
+    I_vld, y_vld = opt_arr('I_vld'), opt_arr('y_vld')
+    # info may be the shared default dict: on entry it holds arbitrary left-overs of an earlier call (C10), so every
+    # field starts with an unconstrained value and must be reset by the function before it matters
+    info, _leftover = S.info_record(st, prefix='leftover')
+    cache = st.alloc(M.VMap('cache')) if with_cache else NONE
+    st.ghost.update(asked=z3.IntVal(0), evaluated=z3.IntVal(0), ncalls=z3.IntVal(0))
+    cb_log = []
+
+    def cb_handler(ex, s, args, kwargs, node):
+        # A-CB: the callback neither writes nor retains its arguments; it returns an arbitrary value
+        r = ex.fresh_bool('cb_is_True')
+        s.ghost['cb_true'] = r
+        s.ghost['cb_calls'] = s.ghost.get('cb_calls', 0) + 1
+        return r
+
+    callees = {
+        'props.erank': lambda ex, s, a, k, n_: erank_f(_tt_of(s, a[0]).arr, _tt_of(s, a[0]).n),
+        'data.accuracy_on_data': lambda ex, s, a, k, n_: aod_f(_tt_of(s, a[0]).arr, _tt_of(s, a[0]).n),
+        'act_two.accuracy': lambda ex, s, a, k, n_: acc_f(_tt_of(s, a[0]).arr, _tt_of(s, a[0]).n, _tt_of(s, a[1]).arr),
+        'cross._iter': lambda ex, s, a, k, n_: VTuple([M.VOpaque('G'), M.VOpaque('R'), M.VOpaque('I')]),
+    }
+
+    def fields(s):
+        return s.heap[info.oid].fields
+
+    def common(ex, s):
+        f = fields(s)
+        Ys = s.deref(s.vars['Y'])
+        out = [(f'counters-consistent-{i}', c) for i, c in enumerate(caller_invariant(f, s.ghost))]
+        out += [('tensor-length', Ys.n == d),
+                ('budget-is-the-requested-one', S.same_opt(f['m_max'], s.ghost['m_max0'])),
+                ('sweep-counter', f['nswp'] == s.ghost['_j2']),
+                ('nswp-not-yet-reached-while-running',
+                 z3.Implies(S.as_opt(f['stop']).isnone, z3.Or(nswp.isnone, f['nswp'] < nswp.val))),
+                ('result-list-is-a-copy', z3.BoolVal(s.vars['Y'].oid != Y0.oid and s.heap[Y0.oid].arr is A0)),
+                ('a-pending-reason-comes-from-the-pre-iteration',
+                 z3.Or(S.as_opt(f['stop']).isnone, S.stop_in(f['stop'], ('e_vld', 'nswp')))),
+                ('a-pending-nswp-reason-is-justified',
+                 z3.Implies(S.stop_is(f['stop'], 'nswp'), z3.And(z3.Not(nswp.isnone), f['nswp'] >= nswp.val))),
+                ('cache-hits-only-with-a-cache', z3.BoolVal(True) if with_cache else f['m_cache'] == 0)]
+        return out
+
+    def inv_pre(ex, s, j):       # the two pre-iteration loops: the objective is not consulted, info is complete
+        f = fields(s)
+        Ys = s.deref(s.vars['Y'])
+        return [('no-evaluation-before-the-first-sweep', z3.And(s.ghost['ncalls'] == 0, s.ghost['asked'] == 0, f['m'] == 0)),
+                ('tensor-length', Ys.n == d), ('index-lists-length', s.deref(s.vars['Ir']).n == d + 1),
+                ('index-lists-length-c', s.deref(s.vars['Ic']).n == d + 1)]
+
+    def inv_while(ex, s, j):
+        f = fields(s)
+        return common(ex, s) + [('a-reason-is-pending-only-at-the-first-entry', z3.Or(S.as_opt(f['stop']).isnone, j == 0))]
+
+    def inv_ltr(ex, s, j):
+        f = fields(s)
+        return common(ex, s) + [('a-reason-is-pending-only-at-the-very-first-request',
+                                 z3.Or(S.as_opt(f['stop']).isnone, z3.And(j == 0, s.ghost['_j2'] == 0)))]
+
+    def inv_rtl(ex, s, j):
+        f = fields(s)
+        return common(ex, s) + [('no-reason-pending', S.as_opt(f['stop']).isnone)]
+
+    def havoc_hook(ex, h, pre, j):
+        # the opaque index lists keep their length (their elements are rebound inside the loops)
+        for nm in ('Ir', 'Ic', 'Ig'):
+            if nm in h.vars and nm in pre.vars:
+                h.assume(h.deref(h.vars[nm]).n == pre.deref(pre.vars[nm]).n)
+
+    loops = {0: {'inv': inv_pre, 'havoc_hook': havoc_hook}, 1: {'inv': inv_pre, 'havoc_hook': havoc_hook},
+             2: {'inv': inv_while, 'havoc_hook': havoc_hook}, 3: {'inv': inv_ltr, 'havoc_hook': havoc_hook},
+             4: {'inv': inv_rtl, 'havoc_hook': havoc_hook}}
+    ex = U.executor(fn, loops=loops, callees=callees, lenient=True)
+    if ex.nloops != 5:
+        raise M.ContractMismatch(f'cross(): expected 5 loops (two pre-iteration sweeps, while, two half-sweeps), found {ex.nloops}')
+    m_max0 = VOpt(z3.Or(m.isnone, m.val == 0), m.val)            # int(m) if m else None
+    st.ghost['m_max0'] = m_max0
+    st.vars.update(f=oracle(ex, st), Y0=Y0, m=m, e=e, nswp=nswp, tau=z3.Real('tau'), dr_min=z3.Int('dr_min'),
+                   dr_max=z3.Int('dr_max'), tau0=z3.Real('tau0'), k0=z3.Int('k0'), info=info, cache=cache, I_vld=I_vld,
+                   y_vld=y_vld, e_vld=e_vld, cb=VFunc('cb', cb_handler) if with_cb else NONE, func=NONE,
+                   m_cache_scale=z3.Real('mcs'), log=False)
+    res = U.run(ex, st, pre=[d >= 2, z3.Or(m.isnone, m.val >= 0), st.vars['m_cache_scale'] >= 0])
+    U.cover('precondition-satisfiable', U.pre)
+    nret = 0
+    for p, o in res:
+        if o.kind == 'raise':
+            continue                      # argument validation: unit cross.cross.validate
+        if o.kind != 'return':
+            U.post('only-returns-or-validation-errors', p, False)
+            continue
+        nret += 1
+        f = fields(p)
+        stop = S.as_opt(f['stop'])
+        Ys = p.deref(o.value)
+        in_ltr, in_rtl = 'loop3:body' in p.trace, 'loop4:body' in p.trace
+        early = (in_ltr and 'loop3:exit' not in p.trace) or (in_rtl and 'loop4:exit' not in p.trace)
+        U.post('returns-the-working-copy-not-the-initial-tensor', p,
+               z3.BoolVal(isinstance(o.value, VRef) and o.value.oid != Y0.oid and isinstance(Ys, VSeq) and p.heap[Y0.oid].arr is A0))
+        U.post('result-has-d-cores', p, Ys.n == d)
+        U.post('exactly-one-documented-stop-reason', p, S.stop_in(f['stop'], S.STOP_REASONS))
+        U.post('never-more-than-m-indices-in-total', p, z3.Implies(z3.Not(m_max0.isnone), p.ghost['asked'] <= m_max0.val))
+        U.post('info-m-equals-number-of-evaluated-indices', p, f['m'] == p.ghost['evaluated'])
+        U.post('reported-rank-is-that-of-the-returned-tensor', p, f['r'] == erank_f(Ys.arr, Ys.n))
+        U.post('reported-validation-error-is-that-of-the-returned-tensor', p, f['e_vld'] == aod_f(Ys.arr, Ys.n))
+        Yold = p.deref(p.vars['Yold'])
+        U.post('reported-convergence-is-relative-to-the-copy-taken-at-sweep-start', p, f['e'] == acc_f(Ys.arr, Ys.n, Yold.arr))
+        if not early:
+            # (at an early return a reason pending from the pre-iteration was justified by the values reported then;
+            # the values are recomputed for the numerically identical tensor - not expressible in the control tier)
+            U.post('stop-e-only-if-reported-value-within-threshold', p,
+                   z3.Implies(S.stop_is(f['stop'], 'e'), z3.And(z3.Not(e.isnone), f['e'] >= 0, f['e'] <= e.val)))
+            U.post('stop-e_vld-only-if-reported-value-within-threshold', p,
+                   z3.Implies(S.stop_is(f['stop'], 'e_vld'), z3.And(z3.Not(e_vld.isnone), f['e_vld'] >= 0, f['e_vld'] <= e_vld.val)))
+        else:
+            U.post('stop-e-never-pending-at-an-interruption', p, z3.Not(S.stop_is(f['stop'], 'e')))
+        U.post('stop-nswp-after-exactly-nswp-sweeps', p,
+               z3.Implies(z3.And(S.stop_is(f['stop'], 'nswp'), nswp.val >= 1), f['nswp'] == nswp.val))
+        U.post('stop-nswp-only-if-requested', p, z3.Implies(S.stop_is(f['stop'], 'nswp'), z3.And(z3.Not(nswp.isnone), f['nswp'] >= nswp.val)))
+        if early:
+            lr = p.ghost['last_request']
+            U.post('interrupted-only-by-budget-objective-or-a-reason-pending-from-the-pre-iteration', p,
+                   z3.Or(S.stop_in(f['stop'], ('m', 'func')),
+                         z3.And(p.ghost['_j2'] == 0, f['nswp'] == 0, S.stop_in(f['stop'], ('e_vld', 'nswp')))))
+            U.post('stop-m-only-when-the-next-batch-would-exceed-the-budget', p,
+                   z3.Implies(S.stop_is(f['stop'], 'm'),
+                              z3.And(z3.Not(m_max0.isnone), lr['n_new'] >= 1 if with_cache else lr['N'] >= 0,
+                                     lr['old']['m'] + lr['n_new'] > m_max0.val, f['m'] == lr['old']['m'])))
+            U.post('stop-func-only-when-the-objective-returned-None', p,
+                   z3.Implies(S.stop_is(f['stop'], 'func'), p.ghost['answers_none']))
+            U.post('sweep-counter-counts-completed-sweeps-only', p, f['nswp'] == p.ghost['_j2'])
+        else:
+            U.post('end-of-sweep-reasons', p, S.stop_in(f['stop'], ('conv', 'cb', 'e_vld', 'e', 'nswp')))
+            U.post('sweep-counter-incremented-once-per-sweep', p, f['nswp'] == p.ghost['_j2'] + 1)
+            conv = f['m_cache'] > z3.ToReal(f['m']) * p.vars['m_cache_scale'] if with_cache else None
+            if with_cb:
+                U.post('stop-cb-only-right-after-the-callback-returned-True', p,
+                       z3.Implies(S.stop_is(f['stop'], 'cb'), p.ghost.get('cb_true', z3.BoolVal(False))))
+                U.post('callback-True-stops-this-sweep', p,
+                       z3.Implies(p.ghost.get('cb_true', z3.BoolVal(False)), S.stop_in(f['stop'], ('cb', 'conv'))))
+            else:
+                U.post('stop-cb-needs-a-callback', p, z3.Not(S.stop_is(f['stop'], 'cb')))
+            if not with_cache:
+                U.post('stop-conv-needs-a-cache', p, z3.Not(S.stop_is(f['stop'], 'conv')))
+        U.canary('canary-always-stops-by-nswp', p, S.stop_is(f['stop'], 'nswp'))
+    U.post('three-return-sites-reached', U.pre, z3.BoolVal(nret >= 3))
+
+
+for _wc in (False, True):
+    for _cb in (False, True):
+        def _mk(wc=_wc, cb=_cb):
+            @unit(f'cross.cross.{"cache" if wc else "nocache"}.{"cb" if cb else "nocb"}', props=('C06', 'C05'))
+            def u(U):
+                _cross_unit(U, wc, cb)
+        _mk()
